@@ -124,7 +124,7 @@ pub fn generate(seed: u64, tier: &str, out: &mut dyn std::io::Write) {
     let nnat = if tier == "thorough" { 80 } else { 30 };
     for i in 0..nnat {
         let mut r = Rng::for_case(seed, 1011, i);
-        let scen = *r.pick(&["badname", "baddso", "traced", "none", "killed", "killed", "badlink"]);
+        let scen = *r.pick(&["badname", "baddso", "traced", "none", "killed", "killed", "badlink", "traced-reused"]);
         let nblock = r.range(1, 4) as usize;
         let mut args = vec!["-t".to_string(), nblock.to_string()];
         let victim = r.range(0, nblock as u64) as usize;
@@ -163,6 +163,20 @@ pub fn generate(seed: u64, tier: &str, out: &mut dyn std::io::Write) {
         if scen == "traced" {
             tracer = crate::c01::spawn_tracer(t.threads[victim].tid);
         }
+        // the blamed thread itself cannot be attached (somebody else traces it by then), on a writer that has served a
+        // request before: everything but what depends on that thread has to be as in a fresh writer's dump of the same
+        // situation (`ref=`)
+        let mut reference = String::new();
+        if scen == "traced-reused" {
+            cfg.blamed = t.threads[victim].tid;
+            cfg.trace_tid = Some(t.threads[victim].tid);
+            let mut rdest = RecDest::new(vec![], 0);
+            let ro = dump_case("C11", &format!("q{}-{}", seed, i), &t, &cfg, &mut rdest, "");
+            if ro.result == "ok" {
+                reference = format!(" ref=@{}", ro.img_path);
+            }
+            cfg.pre_dumps = 1;
+        }
         let mut dest = RecDest::new(vec![], 0);
         // the target dies (and is reaped) while the dump is under way, after the streams that need it alive: every
         // later best-effort step that reads the target's files or memory fails, each under its own step
@@ -171,7 +185,7 @@ pub fn generate(seed: u64, tier: &str, out: &mut dyn std::io::Write) {
             killed_at = 6 + ((i * 7 + seed) % 11) as usize; // entries 6 … 16, every value over the cases of a run
             dest.kill_at_dirent = Some((killed_at, t.pid, t.threads.iter().map(|x| x.tid).collect()));
         }
-        let o = dump_case("C11", &format!("n{}-{}", seed, i), &t, &cfg, &mut dest, &format!("killed_at={}", killed_at));
+        let o = dump_case("C11", &format!("n{}-{}", seed, i), &t, &cfg, &mut dest, &format!("killed_at={}{}", killed_at, reference));
         if let Some(mut c) = tracer {
             let _ = c.kill();
             let _ = c.wait();
